@@ -165,7 +165,7 @@ def assemble_project():
         if fn.endswith(".list"):
             for l in open(os.path.join(d, fn)):
                 l = l.strip()
-                if l and not l.startswith("#") and l not in lines:
+                if l and not l.startswith("#") and l not in lines and os.path.exists(os.path.join(COQ, l)):
                     lines.append(l)
     text = "\n".join(lines) + "\n"
     cp = os.path.join(COQ, "_CoqProject")
@@ -204,17 +204,38 @@ def make(targets, timeout=1500):
     return rc == 0, out
 
 
-def hygiene(files):
-    """forbidden vernacular anywhere in the development"""
+def import_closure(roots):
+    """.v files (relative to coq/theories) reachable from `roots` through `From PV Require ...` / `Require Import PV....`"""
+    seen = []
+    todo = list(roots)
+    while todo:
+        f = todo.pop()
+        if f in seen:
+            continue
+        path = os.path.join(COQ, "theories", f)
+        if not os.path.exists(path):
+            continue
+        seen.append(f)
+        txt = re.sub(r"\(\*.*?\*\)", "", open(path, errors="replace").read(), flags=re.S)
+        for m in re.finditer(r"From\s+PV\s+Require\s+(?:Import\s+|Export\s+)?(.*?)\.(?:\s|$)", txt, re.S):
+            for name in m.group(1).split():
+                todo.append(name.replace(".", "/") + ".v")
+        for m in re.finditer(r"\bPV\.([A-Za-z0-9_]+(?:\.[A-Za-z0-9_]+)+)", txt):
+            todo.append(m.group(1).replace(".", "/") + ".v")
+    return seen
+
+
+def hygiene(roots):
+    """forbidden vernacular anywhere in the files this property's theorems depend on (import closure)"""
     bad = []
-    for dp, _, fns in os.walk(os.path.join(COQ, "theories")):
-        for fn in fns:
-            if fn.endswith(".v"):
-                p = os.path.join(dp, fn)
-                for k, line in enumerate(open(p, errors="replace"), 1):
-                    code = re.sub(r"\(\*.*?\*\)", "", line)
-                    if FORBIDDEN.search(code):
-                        bad.append(f"{os.path.relpath(p, ROOT)}:{k}: {line.strip()[:120]}")
+    for f in import_closure(roots):
+        p = os.path.join(COQ, "theories", f)
+        txt = open(p, errors="replace").read()
+        # blank out comments (possibly multi-line) but keep line numbers
+        txt = re.sub(r"\(\*.*?\*\)", lambda m: re.sub(r"[^\n]", " ", m.group(0)), txt, flags=re.S)
+        for k, line in enumerate(txt.splitlines(), 1):
+            if FORBIDDEN.search(line):
+                bad.append(f"{os.path.relpath(p, ROOT)}:{k}: {line.strip()[:120]}")
     return bad
 
 
@@ -401,7 +422,7 @@ def run_property(mod, tier, seed):
         return 1
 
     # 3. hygiene + assumptions ----------------------------------------------------------
-    bad = hygiene(None)
+    bad = hygiene(list(mod.THEOREM_FILES) + [t[:-1] for t in mod.COQ_TARGETS])
     obligations, discharged, axioms, problems, theorems = assumptions(mod.THEOREM_FILES)
     problems = bad + problems
     lock.__exit__()
@@ -488,6 +509,23 @@ def run_property(mod, tier, seed):
         else:
             notes.append(f"known finding {k['finding_id']} no longer reproduces (repaired?)")
 
+    # 5b. thorough tier: independent re-check of the compiled theory with coqchk ------------
+    coqchk = None
+    if tier == "thorough":
+        libs = " ".join("PV." + pf[:-2].replace("/", ".") for pf in mod.THEOREM_FILES)
+        rc_, out_ = sh(f"timeout 1500 coqchk -silent -o -Q theories PV {libs}", cwd=COQ, timeout=1530)
+        m_ = re.search(r"\* Axioms:(.*?)\n\s*\n\* Constants/Inductives relying on type-in-type:(.*?)\n", out_, re.S)
+        coqchk = {"exit": rc_, "axioms": (m_.group(1).split() if m_ else None), "tail": out_[-600:]}
+        if rc_ == 0 and m_:
+            for ax in [a for a in m_.group(1).split() if a != "<none>"]:
+                base = ax.split(".")[-1]
+                if not any(base == al.split(".")[-1] for al in ALLOWED_AXIOMS) and not ax.startswith("Coq.") :
+                    path = write_replay(prop, {"property": prop, "kind": "coqchk-axiom", "axiom": ax})
+                    violations.append((path, "no-failing-input-found"))
+        elif rc_ not in (0, 124):
+            path = write_replay(prop, {"property": prop, "kind": "coqchk-failure", "log": out_[-3000:]})
+            violations.append((path, "no-failing-input-found"))
+
     # 6. evidence -----------------------------------------------------------------------
     distinct = {}
     for c in keep:
@@ -507,6 +545,7 @@ def run_property(mod, tier, seed):
         "attributed_to_known_findings": attributed, "notes": notes[:20],
         "explanation": getattr(mod, "EXPLANATION", ""),
         "correspondence_only_ops": getattr(mod, "CORRESPONDENCE_ONLY", []),
+        "coqchk": coqchk,
     }
     rc = 1 if violations else 0
     write_evidence(mod, tier, seed, t0, cov, len(violations), getattr(mod, "ASSUMPTIONS", []))
